@@ -165,6 +165,10 @@ class Select(BasePoller):
                 try:
                     select.select([sock], [sock], [sock], 0)
                 except Exception:
+                    # tell the owner (as Poll and EPoll do for a descriptor
+                    # that has gone): it still holds state for it
+                    if sock != self._ctrl_recv and sock in self._targets:
+                        self.fire(_disconnect(sock), self.getTarget(sock))
                     self.discard(sock)
 
     def _generate_events(self, event):
